@@ -199,6 +199,8 @@ type Conn struct {
 	DropAtWrite int
 	DropKeep    int
 	DropFired   bool
+	// CloseErr, if set, is what Close reports (the connection is closed all the same), e.g. a reset by the peer.
+	CloseErr error
 	// HalfCloseAtWrite: after that write the peer sees EOF but this end keeps reading.
 }
 
@@ -295,7 +297,7 @@ func (c *Conn) Close() error {
 	}
 	c.closed = true
 	c.Peer.eof = true
-	return nil
+	return c.CloseErr
 }
 
 // Reset aborts the connection from outside (network failure).
